@@ -20,7 +20,12 @@ MANIFEST = {
             "compiled by plain Go in the same binary.  `lower` is a pure function of the tree (C02_lower_pure): "
             "a compiler that mutates the AST so that a node compiled again (overload retry in compileCallExpr) "
             "gets different code is outside every theorem and is covered only by the harness family "
-            "`overload_arg` (sugar as arguments of overloaded calls whose first candidates reject another argument).",
+            "`overload_arg` (sugar as arguments of overloaded calls whose first candidates reject another argument).  "
+            "HARNESS-ONLY (no M4 node, no theorem; behavioural tie + oracle, no structural line): range expressions "
+            "`a:b:c` as for-in/comprehension containers (family `forin_range`: the model iterates over the documented "
+            "sequence rng(a,b,c), operands once, left to right) and NAMED container types as targets of `<-`, literals, "
+            "for-in and comprehensions (family `named_types`: the model sees the underlying type); fixed regression "
+            "inputs in corpus/C02.",
     "note": "trusted: Lean kernel + propext/Classical.choice/Quot.sound; the hand-written Go semantics of M4 (ints "
             "unbounded, slices as values, map iteration in key order, no aliasing) tied to real Go only by the "
             "differential run; the type annotations on sugar nodes stand for gogen's type inference; generators keep "
@@ -36,7 +41,9 @@ RULE = ("generated MiniXGo scenario functions (one XGo package per batch of 150,
         "comprehensions with 1-3 for-phrases (outer variables used by inner containers and filters, `if x := i; c`, "
         "probed containers, nested comprehensions as container or element), command-style calls, sugar as "
         "arguments of 2-3-candidate overloaded functions where earlier candidates reject the last argument "
-        "(every argument compiled 2-3 times); containers "
+        "(every argument compiled 2-3 times); for-in and comprehensions over range expressions with effectful "
+        "start/end/step; named slice/map types (declared after use) as append targets, literals and containers; "
+        "2 fixed regression scenarios (corpus/C02); containers "
         "empty/singleton/duplicates/longer; non-trivial = distinct scenario whose trace has >= 3 events")
 
 
